@@ -59,9 +59,9 @@ theorem PS_listBody (c : Consts) (len : Bool) (h : Hdr) : PS (decodeListBody c l
 
 /-! ### set -/
 
-theorem set_body_run (c : Consts) (s : SetImg) (hw : s.WF c) (tail : Bytes) :
+theorem set_body_run (c : Consts) (s : SetImg) (hw : s.Valid c) (tail : Bytes) :
     decodeSetBody c s.h ((w32 s.count ++ wU32s s.slots) ++ tail) = some (s, tail) := by
-  obtain ⟨_, hm, ht, hk, hc, hl, hb, _⟩ := hw
+  obtain ⟨_, hm, ht, hk, hc, hl, hb⟩ := hw
   unfold decodeSetBody
   rw [bind_some (guard_run (by simp [hm]) _), bind_some (guard_run (by simp [ht]) _),
       bind_some (guard_run (by simp [hk]) _)]
@@ -191,6 +191,20 @@ def encodeG (c : Consts) (lenient : Bool) : Img → Bytes
 theorem encodeG_false (c : Consts) (s : Img) : encodeG c false s = encode c s := by
   cases s <;> simp [encodeG, encode, encodeListG, encodeList, encodeHll, hllTailG]
 
+/-- set images round-trip under `Valid` alone (covers images of older writers whose lg_arr byte is absent) -/
+theorem set_decode_encode_valid (c : Consts) (hc : c.ok = true) (len : Bool) (s : SetImg) (hv : s.Valid c) (tail : Bytes) :
+    decodeG c len (encodeSet c s ++ tail) = some (Img.set s, tail) := by
+  have hc' := hc
+  simp only [Consts.ok, Bool.and_eq_true, decide_eq_true_eq, bne_iff_ne, ne_eq] at hc'
+  obtain ⟨⟨⟨⟨⟨⟨⟨_, _⟩, pl⟩, ps⟩, ph⟩, nhs⟩, nhl⟩, nsl⟩ := hc'
+  have hr : s.h.inRange := hv.1
+  simp only [encodeSet, List.append_assoc]
+  unfold decodeG
+  rw [hdr_run c hc c.setPreInts ps s.h hr]
+  have e1 : (c.setPreInts == c.hllPreInts) = false := by simp; exact fun h => nhs h.symm
+  simp only [e1, Bool.false_eq_true, if_false, beq_self_eq_true, if_true]
+  rw [← List.append_assoc, bind_some (set_body_run c s hv tail)]; rfl
+
 theorem decodeG_encodeG (c : Consts) (hc : c.ok = true) (len : Bool) (s : Img) (hw : s.WF c) (tail : Bytes) :
     decodeG c len (encodeG c len s ++ tail) = some (s, tail) := by
   have hc' := hc
@@ -207,13 +221,8 @@ theorem decodeG_encodeG (c : Consts) (hc : c.ok = true) (len : Bool) (s : Img) (
     simp only [e1, e2, Bool.false_eq_true, if_false, beq_self_eq_true, if_true]
     rw [bind_some (list_body_run c len s hw tail)]; rfl
   | set s =>
-    have hr : s.h.inRange := hw.1
-    simp only [encodeG, encodeSet, List.append_assoc]
-    unfold decodeG
-    rw [hdr_run c hc c.setPreInts ps s.h hr]
-    have e1 : (c.setPreInts == c.hllPreInts) = false := by simp; exact fun h => nhs h.symm
-    simp only [e1, Bool.false_eq_true, if_false, beq_self_eq_true, if_true]
-    rw [← List.append_assoc, bind_some (set_body_run c s hw tail)]; rfl
+    simp only [encodeG]
+    exact set_decode_encode_valid c hc len s hw.1 tail
   | hll s =>
     have hr : s.h.inRange := hw.1
     simp only [encodeG, List.append_assoc]
